@@ -60,10 +60,11 @@ type fctx struct {
 	measure0 []Term // entry value of the function-level decreases measure
 	hidden   []types.Object // hidden index variables of enclosing range loops (innermost last)
 	defers   []deferRec     // deferred delete(m, k) on local maps, applied at the merged exit
+	escaped  map[string]ast.Expr // pointers handed to abstract callees behind an interface (may be written later)
 }
 
 type deferRec struct {
-	obj types.Object
+	expr ast.Expr
 	key Term
 	pc  Term
 }
@@ -669,6 +670,14 @@ func (x *Exec) execStmt(s ast.Stmt, env *Env, label string) *Env {
 				vals = append(vals, x.evalAs(r, env, t))
 			}
 		}
+		if x.cx.fc != nil && len(x.cx.fc.AtReturn) > 0 && x.quiet == 0 && x.unroll == 0 && len(s.Results) > 0 {
+			if id, ok := ast.Unparen(s.Results[len(s.Results)-1]).(*ast.Ident); ok && id.Name == "nil" {
+				sc := x.scopeAt(env, s.Pos())
+				for i, c := range x.cx.fc.AtReturn {
+					x.assert(env, "atreturn:"+clauseName(c, i), "", sc.EvalBool(c.Expr))
+				}
+			}
+		}
 		x.cx.rets = append(x.cx.rets, retRec{env: env.clone(), vals: vals})
 		return nil
 	case *ast.BranchStmt:
@@ -702,15 +711,18 @@ func (x *Exec) execStmt(s ast.Stmt, env *Env, label string) *Env {
 		// defer delete(m, k) on a local map outside loops: applied at the function exit
 		if id, ok := ast.Unparen(s.Call.Fun).(*ast.Ident); ok && id.Name == "delete" && len(s.Call.Args) == 2 {
 			if _, isBuiltin := x.cx.info.Uses[id].(*types.Builtin); isBuiltin {
-				if mid, ok := ast.Unparen(s.Call.Args[0]).(*ast.Ident); ok {
+				mexpr := ast.Unparen(s.Call.Args[0])
+				_, isId := mexpr.(*ast.Ident)
+				_, isSel := mexpr.(*ast.SelectorExpr)
+				if isId || isSel {
 					for _, f := range x.cx.frames {
 						if f.kind == "loop" {
 							unsupported("defer inside a loop")
 						}
 					}
-					mt := x.cx.info.TypeOf(mid).Underlying().(*types.Map)
+					mt := x.cx.info.TypeOf(mexpr).Underlying().(*types.Map)
 					k := x.evalAs(s.Call.Args[1], env, mt.Key())
-					x.cx.defers = append(x.cx.defers, deferRec{obj: x.cx.info.Uses[mid], key: k, pc: env.pc})
+					x.cx.defers = append(x.cx.defers, deferRec{expr: mexpr, key: k, pc: env.pc})
 					return env
 				}
 			}
